@@ -25,7 +25,7 @@ ASSUMPTIONS = ["equalities between two runs of the same arithmetic in a differen
                "the birth-death / birth-persistence relation at 1e-9*W because (b+p)-b re-rounds the persistence",
                "sign / total clauses at 1e-9*W; weights judged non-negative from the oracle-side weight function",
                "schedules: only those joblib produces on this machine (loky processes, threads), perturbed by injected sleeps"]
-REQUIRED_NOTES = ["large-cases", "reconfigure-cases"]
+REQUIRED_NOTES = ["large-cases", "reconfigure-cases", "cancelling-weight-cases"]
 TECHNIQUE = "runtime monitoring: metamorphic-relation monitor on PersistenceImager.transform across call styles and joblib schedules, with a worker event log"
 
 
@@ -127,9 +127,45 @@ def reconfigure_case(ctx, k, rng):
         ctx.exception("transform returns", e, scenario="reconfigure")
 
 
+def cancelling_case(ctx, k, rng):
+    """integer filtration values with pairs above and below the diagonal (extended persistence) and an odd persistence power, or a
+    signed weight function: the weights of one diagram can sum to exactly 0 although its image is not blank"""
+    geom = imgcfg.gen_geometry(rng)
+    while True:
+        kkw, kdesc = imgcfg.gen_kernel(rng, geom["pixel_size"], high_corr=False)
+        if kdesc["kind"] != "logistic":
+            break
+    nexp = float(rng.choice([1.0, 1.0, 3.0]))
+    ctx.begin(k, "cancelling/" + kdesc["kind"], None)
+    ctx.note("cancelling-weight-cases")
+    try:
+        P = Imager(**geom, **kkw, weight="persistence", weight_params={"n": nexp})
+        b0, b1 = P.birth_range; p1 = P.pers_range[1]
+        m = int(rng.integers(1, 4))
+        pers = rng.integers(1, 5, m).astype(float)
+        pers = np.concatenate([pers, -pers])[rng.permutation(2 * m)]            # cancels exactly for every odd power
+        births = np.round(rng.uniform(b0, b1, 2 * m))
+        bp = np.column_stack([births, pers])
+        A = bd(bp)
+        ctx.set_payload({"ctor": {**geom, "kernel": kdesc, "weight": "persistence n=%g" % nexp}, "diagram": A})
+        ctx.ran(2 * m + 2)
+        whole = np.asarray(P.transform(A, skew=True))
+        parts = sum(np.asarray(P.transform(A[i:i + 1], skew=True)) for i in range(2 * m))
+        W = float(np.sum(np.abs(pers) ** nexp)) + 1e-300
+        ctx.check("image of a union == sum of images", np.max(np.abs(whole - parts)) <= 1e-12 * W, worst=float(np.max(np.abs(whole - parts))), W=W,
+                  weights_sum=float(np.sum(np.sign(pers) * np.abs(pers) ** nexp)), blank=bool(not np.any(whole)))
+        inside = np.asarray(P.transform([A], skew=True)[0])
+        ctx.check("alone == inside a collection (in order)", np.max(np.abs(inside - whole)) <= 1e-12 * W, worst=float(np.max(np.abs(inside - whole))), n=1, W=W)
+        ctx.mark_nontrivial(geom, kdesc, A.tolist())
+    except Exception as e:
+        ctx.exception("transform returns", e, scenario="cancelling")
+
+
 def run_case(ctx, k, rng):
     if k % 131 == 17:
         return large_case(ctx, k, rng)
+    if k % 23 == 7:
+        return cancelling_case(ctx, k, rng)
     if k % 11 == 5:
         return reconfigure_case(ctx, k, rng)
     geom = imgcfg.gen_geometry(rng)
